@@ -770,14 +770,14 @@ def main(argv):
     elif sbad:
         i, msg = sbad[0]
         rep.violation({'property': PROP, 'kind': 'split', 'what': msg, 'case': scases[i], 'replay_cmd': './check C18 --replay <this file>'}, text=msg)
+    elif rbad:
+        i, msg = rbad[0]
+        rep.violation({'property': PROP, 'kind': 'route', 'what': msg, 'case': rcases[i], 'replay_cmd': './check C18 (the routing check is deterministic and runs on every check)'}, text=msg)
     elif ebad:
         i, msg = ebad[0]
         r = epairs[i][0]
         rep.violation({'property': PROP, 'kind': 'e2e', 'what': msg, 'case': {k: r[k] for k in ('bench', 'size', 'gpus', 'unified', 'timing')},
                        'observed': r['data'], 'single_gpu': (epairs[i][1] or {}).get('data'), 'replay_cmd': './check C18 --replay <this file>'}, text=msg)
-    elif rbad:
-        i, msg = rbad[0]
-        rep.violation({'property': PROP, 'kind': 'route', 'what': msg, 'case': rcases[i], 'replay_cmd': './check C18 (the routing check is deterministic and runs on every check)'}, text=msg)
     elif run_fail:
         r = run_fail[0]
         rep.violation({'property': PROP, 'kind': 'run', 'what': 'whole run does not pass -verify (or hangs)', 'case': r,
